@@ -239,7 +239,8 @@ def stream(e, d, table, iface, *, split="train", shuffle=0, T=2, repeat=False, p
     mon = mon or Monitor()
     dec = make_decoder(table, mon, fail)
     restore = patch_randomness(e, IT)
-    rust = iterlab.fresh_rust_stub(table={p: list(v) for p, v in table.items()})
+    # the native iterator yields, per example, one byte vector per attribute: here one "attribute" holding the token
+    rust = iterlab.fresh_rust_stub(table={p: [[t] for t in v] for p, v in table.items()})
     mon.rust = rust
     # the rust stub must fail like the native reader would on an unreadable shard
     if fail:
@@ -250,7 +251,7 @@ def stream(e, d, table, iface, *, split="train", shuffle=0, T=2, repeat=False, p
                 mon.opened.append(str(f))
                 if str(f) in fail:
                     raise OSError("vt: unreadable shard (native)")
-                yield from table[str(f)]
+                yield from [[t] for t in table[str(f)]]
         rust._gen = gen
     kw = dict(split=split, repeat=repeat, shuffle=shuffle)
     kw.update(extra or {})
@@ -270,10 +271,11 @@ def stream(e, d, table, iface, *, split="train", shuffle=0, T=2, repeat=False, p
         elif iface == "async":
             it = drive_async(d.as_numpy_iterator_async(process_record=process_record, file_parallelism=T, **kw))
         elif iface == "rust":
+            # the REAL as_numpy_iterator_rust / RustGenerator / to_dict run; decode_array passes the token through
             dec.decode_array = staticmethod(lambda np_bytes, attribute, batch_size=0: np_bytes)
-            gen = DI.RustGenerator(dataset=d, process_record=process_record, file_parallelism=T, **kw)
-            gen._to_dict = lambda example: example  # tokens are not attribute lists
-            it = _rust_iter(gen)
+            pr = (lambda ex: process_record(ex["a"])) if process_record else None
+            it = ((x["a"] if isinstance(x, dict) else x)
+                  for x in d.as_numpy_iterator_rust(process_record=pr, file_parallelism=T, **kw))
         elif iface == "tfdataset":
             rec = iterlab.RecTF()
             DI.tf, old_tf = rec, DI.tf
